@@ -486,9 +486,12 @@ def _d4(f, t, h):
 #   x softness        curvature scale / smallest eigenvalue (errors grow ~1/H near a spinodal)
 #   + minimiser noise 2 eps_mach |V| / eps_fd / H           forward-difference gradient of
 #                     scipy's BFGS, eps_fd = 1.49e-8 * fieldValueVariationScale (unit-invariant)
-# TOL_SAFETY = 3 x the worst observed error/model over seeds 1..12 (quick) and the thorough
-# tier on the unchanged tree (worst observed: see evidence "worst_error_over_model").
-TOL_SAFETY = 1.0
+# TOL_SAFETY = 3 x the worst observed error/model on the unchanged tree (HEAD c2d5801) over
+# seeds 1..12 at quick size and 4 x 230 further cases at thorough density: Newton step 0.73,
+# branch distance 0.27, interpolated fields 0.83, interpolated Veff 0.50, negative exact
+# eigenvalue at an accepted point 1.16 x 1e-7 T^2  ->  3 x 1.16 = 3.5.  Every run records its
+# own worst ratios in the evidence ("worst_error_over_model").
+TOL_SAFETY = 3.5
 
 
 def err_model(m, rTol, soft, v, emin):
@@ -724,6 +727,7 @@ def run_tc_case(ctx, cfg):
     if Tc is not None and not hopped:
         ctx.count("direct_tc")
         tol = (1e-6 + 100 * cfg["rTol"]) * m.Tc + 0.05 * cfg["dT"] * (cfg["dT"] / m.Tscale) ** 2
+        note_worst(ctx, dict(tc=abs(Tc - m.Tc) / tol))
         if abs(Tc - m.Tc) > tol:
             report("tc-wrong", "critical temperature %.12g, closed form %.12g (tolerance "
                    "%.3g)" % (Tc, m.Tc, tol), dict(Tc=Tc))
